@@ -1187,6 +1187,80 @@ fn static_shapes(src: &str, ast: &Ast, toks: &[Tk]) -> Vec<&'static str> {
             prev_code_line = Some(t.eline);
         }
     }
+    // F-C11-13: a blank line in the middle of an expression (the EmptyLine trivia item becomes a LineBreak
+    // item of the expression's group: the expression continues at column 0)
+    {
+        let code: Vec<&Tk> = toks.iter().filter(|t| !matches!(t.token, Token::Whitespace | Token::NewLine | Token::CommentSingle | Token::CommentMulti)).collect();
+        for w in code.windows(2) {
+            let (p, n) = (w[0], w[1]);
+            if n.line < p.eline + 2 {
+                continue;
+            }
+            // is there a blank line between the two tokens?
+            let between = &src[p.eb..n.sb];
+            let parts: Vec<&str> = between.split('\n').collect();
+            let blank = parts.len() >= 3 && parts[1..parts.len() - 1].iter().any(|l| l.trim().is_empty());
+            if !blank {
+                continue;
+            }
+            // innermost node that covers both tokens
+            let (ps, ne) = ((p.line, p.col), (n.eline, n.ecol));
+            let mut best: Option<(&Node, (u32, u32, u32, u32))> = None;
+            for nd in ast.nodes() {
+                let sp = ast.span(nd.span);
+                let (s0, e0) = ((sp.start.line, sp.start.column), (sp.end.line, sp.end.column));
+                if s0 <= ps && ne <= e0 {
+                    let key = (e0.0 - s0.0, u32::MAX - s0.0, u32::MAX - s0.1, e0.1);
+                    if best.as_ref().is_none_or(|(_, k)| key < *k) {
+                        best = Some((&nd.node, key));
+                    }
+                }
+            }
+            let structured = match best.map(|b| b.0) {
+                None => true,
+                Some(nd) => matches!(nd, Node::MainBlock { .. } | Node::Block(_) | Node::Map { braces: false, .. } | Node::Match { .. }
+                    | Node::Switch(_) | Node::If(_) | Node::Try(_) | Node::For(_) | Node::While { .. } | Node::Until { .. }
+                    | Node::Loop { .. } | Node::Function(_) | Node::MatchArm { .. } | Node::SwitchArm { .. }),
+            };
+            if !structured {
+                v.push("blank_line_in_expression");
+            }
+        }
+    }
+    // F-C11-14: a comment between `from` and `import`
+    {
+        let mut after_from = false;
+        for t in toks.iter() {
+            match t.token {
+                Token::From => after_from = true,
+                Token::Import => after_from = false,
+                Token::CommentSingle if after_from => v.push("comment_between_from_and_import"),
+                _ => {}
+            }
+        }
+    }
+    // F-C11-15: an expression that ends in an indented block (function with a block body, block if …) as an
+    // element inside brackets / parentheses: the closing bracket or the next element is appended to the block's last line
+    for n in ast.nodes() {
+        let elems: Vec<AstIndex> = match &n.node {
+            Node::List(xs) => xs.to_vec(),
+            Node::Tuple { elements, parentheses: true } => elements.to_vec(),
+            Node::Nested(x) => vec![*x],
+            Node::Map { entries, braces: true } => entries
+                .iter()
+                .map(|e| match &ast.node(*e).node {
+                    Node::MapEntry(_, val) => *val,
+                    _ => *e,
+                })
+                .collect(),
+            Node::Chain((ChainNode::Call { args, with_parens: true }, _)) => args.to_vec(),
+            Node::Chain((ChainNode::Index(x), _)) => vec![*x],
+            _ => vec![],
+        };
+        if elems.iter().any(|e| ends_in_block(ast, *e, 0)) {
+            v.push("block_in_brackets");
+        }
+    }
     // F-C11-10: a single-line comment whose next code token is a closing bracket / closing `|`, or that
     // sits inside an import item list (after an item's comma)
     for (i, t) in toks.iter().enumerate() {
@@ -2353,6 +2427,9 @@ const FINDINGS: &[(&str, &str, &[&str])] = &[
     ("F-C11-6", "input_line_wider_than_line_length", &["2:", "3:", "5:"]),
     ("F-C11-7", "fmt_skip_multiline", &["2:", "3:", "5:"]),
     ("F-C11-12", "fmt_skip_short_span", &["2:", "3:", "5:", "6:"]),
+    ("F-C11-13", "blank_line_in_expression", &["2:", "3:", "5:"]),
+    ("F-C11-14", "comment_between_from_and_import", &["2:", "3:", "5:"]),
+    ("F-C11-15", "block_in_brackets", &["2:", "3:", "5:"]),
     ("F-C11-9", "block_expr_operand", &["2:", "3:", "5:"]),
     ("F-C11-9", "line_starts_with_minus", &["2:", "3:", "5:"]),
     ("F-C11-10", "comment_before_closer", &["2:", "3:", "4:", "5:"]),
